@@ -403,6 +403,55 @@ func runProgram(prog []TOp, sh *shared, out *[]string) {
 	}
 }
 
+// freshShared derives different argument values: every point plus a fixed
+// point of large order, every scalar plus one.
+func freshShared(sh *shared) *shared {
+	out := &shared{}
+	seven, _ := new(edwards25519.Scalar).SetCanonicalBytes(append([]byte{7}, make([]byte, 31)...))
+	one, _ := new(edwards25519.Scalar).SetCanonicalBytes(append([]byte{1}, make([]byte, 31)...))
+	off := new(edwards25519.Point).ScalarMult(seven, edwards25519.NewGeneratorPoint())
+	for _, s := range sh.S {
+		out.S = append(out.S, new(edwards25519.Scalar).Add(s, one))
+	}
+	for _, p := range sh.P {
+		out.P = append(out.P, new(edwards25519.Point).Add(p, off))
+	}
+	return out
+}
+
+// tableBattery reads every entry of both lazily built basepoint tables through
+// the public API and returns a digest of the results: ScalarBaseMult with all
+// 64 radix-16 digits equal to j (j = 1..8) and the negatives of those scalars
+// (entries +-j of all 32 sub-tables), VarTimeDoubleScalarBaseMult with a = 0
+// and b = k for every odd k < 128 and l - k (entries +-k of the NAF table).
+func tableBattery() string {
+	h := sha256.New()
+	zero := edwards25519.NewScalar()
+	id := edwards25519.NewIdentityPoint()
+	for j := 1; j <= 8; j++ {
+		b := bytes.Repeat([]byte{byte(j | j<<4)}, 32)
+		b[31] = byte(j) & 0x0f // keep it below l: top nibble zero
+		s, err := new(edwards25519.Scalar).SetCanonicalBytes(b)
+		if err != nil {
+			continue
+		}
+		for _, x := range []*edwards25519.Scalar{s, new(edwards25519.Scalar).Negate(s)} {
+			p := new(edwards25519.Point).ScalarBaseMult(x)
+			h.Write([]byte(hist.ValueDigestPoint(alpha.PointLimbs(p))))
+		}
+	}
+	for k := 1; k < 128; k += 2 {
+		b := make([]byte, 32)
+		b[0] = byte(k)
+		s, _ := new(edwards25519.Scalar).SetCanonicalBytes(b)
+		for _, x := range []*edwards25519.Scalar{s, new(edwards25519.Scalar).Negate(s)} {
+			p := new(edwards25519.Point).VarTimeDoubleScalarBaseMult(zero, id, x)
+			h.Write([]byte(hist.ValueDigestPoint(alpha.PointLimbs(p))))
+		}
+	}
+	return fmt.Sprintf("%x", h.Sum(nil)[:16])
+}
+
 func rawShared(sh *shared) []byte {
 	var b []byte
 	for _, s := range sh.S {
@@ -422,6 +471,14 @@ type RefOut struct {
 	Cold    []uint32   `json:"cold"` // per site, whole sequential cold execution
 	Warm    []uint32   `json:"warm"` // per site, second (warm) sequential execution
 	PkgHash string     `json:"pkg_hash"`
+	// Fresh: per site, a third sequential execution of the same programs on
+	// DIFFERENT argument values (every shared point and scalar replaced). Code
+	// that runs here is keyed by arguments (per-point caches), not first-use
+	// construction of argument-independent state.
+	Fresh []uint32 `json:"fresh"`
+	// Battery: outputs of a fixed set of basepoint operations that together read
+	// every entry of the lazily built tables.
+	Battery string `json:"battery"`
 }
 
 func cmdSchedRef() {
@@ -447,6 +504,14 @@ func cmdSchedRef() {
 		for _, p := range t.Programs {
 			var sink []string
 			runProgram(p, sh, &sink)
+		}
+	})
+	ro.Battery = tableBattery()
+	sh2 := freshShared(sh)
+	ro.Fresh = sched.CountSequential(func() {
+		for _, p := range t.Programs {
+			var sink []string
+			runProgram(p, sh2, &sink)
 		}
 	})
 	json.NewEncoder(os.Stdout).Encode(ro)
@@ -643,8 +708,16 @@ func runSched(t *SchedTrace, pol sched.Policy, schedSeed uint64, replay [][]sche
 			}
 		}
 	}
+	// oracle 4: the lazily built tables must hold the same content whatever the
+	// schedule was. Decided by behaviour (a battery of basepoint operations that
+	// reads every table entry), not by comparing raw package memory: a correct
+	// implementation may keep caches or statistics whose content legitimately
+	// depends on the order of calls. The raw comparison is only recorded.
 	if fmt.Sprintf("%x", pkgConc) != ro.PkgHash {
-		so.Violation = viol("package-state-depends-on-schedule", "pkgstate", "package-level state (lazily built tables, constants) after the concurrent phase differs from the state a sequential cold process ends with")
+		so.Stats["package_memory_differs_from_sequential_reference"] = 1
+	}
+	if bat := tableBattery(); bat != ro.Battery {
+		so.Violation = viol("lazy-table-content-depends-on-schedule", "tables", "after the concurrent phase, basepoint operations that together read every entry of the lazily built tables give results different from those of a sequential cold process: a table entry was built or published wrongly under this schedule")
 		return so
 	}
 	// oracle 2: first-use-only package-state write sites execute exactly as often as sequentially
@@ -653,7 +726,7 @@ func runSched(t *SchedTrace, pol sched.Policy, schedSeed uint64, replay [][]sche
 		if !sd.Write || s >= len(ro.Cold) {
 			continue
 		}
-		if ro.Warm[s] == 0 && ro.Cold[s] > 0 {
+		if ro.Warm[s] == 0 && ro.Cold[s] > 0 && (s >= len(ro.Fresh) || ro.Fresh[s] == 0) {
 			firstUse++
 			var conc uint32
 			tasksTouching := 0
@@ -679,7 +752,7 @@ func runSched(t *SchedTrace, pol sched.Policy, schedSeed uint64, replay [][]sche
 	var coldWork, excess uint64
 	worst, worstExcess := -1, uint32(0)
 	for s := range field.VerifSites {
-		if s >= len(ro.Cold) || ro.Warm[s] != 0 || ro.Cold[s] == 0 {
+		if s >= len(ro.Cold) || ro.Warm[s] != 0 || ro.Cold[s] == 0 || (s < len(ro.Fresh) && ro.Fresh[s] != 0) {
 			continue
 		}
 		var conc uint32
@@ -698,7 +771,7 @@ func runSched(t *SchedTrace, pol sched.Policy, schedSeed uint64, replay [][]sche
 	// reach probe, scheme-agnostic: pre-emptions that landed inside first-use-only code
 	var preFU int64
 	for _, d := range res.Log {
-		if d.Kind == 0 && d.Site >= 0 && d.Site < len(ro.Cold) && ro.Warm[d.Site] == 0 && ro.Cold[d.Site] > 0 {
+		if d.Kind == 0 && d.Site >= 0 && d.Site < len(ro.Cold) && ro.Warm[d.Site] == 0 && ro.Cold[d.Site] > 0 && (d.Site >= len(ro.Fresh) || ro.Fresh[d.Site] == 0) {
 			preFU++
 		}
 	}
